@@ -1256,7 +1256,16 @@ impl LsmTree {
                         break 'inner compaction;
                     } else {
                         COMPACTION_THREAD_NO_COMPACTION.click();
+                        #[cfg(rescrv_blue_verif)]
+                        if crate::verif::step_mode() || crate::verif::stop() {
+                            crate::verif::set_last_idle(true);
+                            return Ok(());
+                        }
+                        #[cfg(rescrv_blue_verif)]
+                        crate::verif::parked_enter();
                         mutex = self.compact.wait(mutex).unwrap();
+                        #[cfg(rescrv_blue_verif)]
+                        crate::verif::parked_exit();
                     }
                 }
             };
@@ -1265,6 +1274,14 @@ impl LsmTree {
                 let version = self.take_snapshot();
                 let _ = version.version.release_compaction(compaction);
                 return Err(err);
+            }
+            #[cfg(rescrv_blue_verif)]
+            {
+                crate::verif::progressed();
+                if crate::verif::step_mode() {
+                    crate::verif::set_last_idle(false);
+                    return Ok(());
+                }
             }
         }
     }
@@ -1480,7 +1497,15 @@ impl LsmTree {
         let mut version = self.take_snapshot();
         while version.version.should_stall_ingest() {
             INGEST_STALL.click();
+            #[cfg(rescrv_blue_verif)]
+            if crate::verif::stop() {
+                return Err(logic_error("verif: stopped while stalled"));
+            }
+            #[cfg(rescrv_blue_verif)]
+            crate::verif::parked_enter();
             mutex = self.stall.wait(mutex).unwrap();
+            #[cfg(rescrv_blue_verif)]
+            crate::verif::parked_exit();
             let mut version2 = self.take_snapshot();
             std::mem::swap(&mut version, &mut version2);
             drop(version2);
@@ -1500,6 +1525,11 @@ impl LsmTree {
         let tree_setsum = new_version.compute_setsum();
         assert_eq!(tree_setsum, output_setsum);
         self.install_version(new_version);
+        #[cfg(rescrv_blue_verif)]
+        {
+            crate::verif::notified();
+            crate::verif::progressed();
+        }
         self.compact.notify_all();
         Ok(())
     }
@@ -1525,6 +1555,8 @@ impl LsmTree {
         let tree_setsum = new_version.compute_setsum();
         assert_eq!(tree_setsum, output_setsum);
         self.install_version(new_version);
+        #[cfg(rescrv_blue_verif)]
+        crate::verif::notified();
         self.stall.notify_all();
         Ok(())
     }
@@ -1543,6 +1575,8 @@ impl LsmTree {
         let tree_setsum2 = new_version.compute_setsum();
         assert_eq!(tree_setsum1, tree_setsum2);
         self.install_version(new_version);
+        #[cfg(rescrv_blue_verif)]
+        crate::verif::notified();
         self.stall.notify_all();
         Ok(())
     }
@@ -1599,6 +1633,34 @@ impl LsmTree {
                 let _ = rename(sst_path, trash_path);
             }
         }
+    }
+
+    #[cfg(rescrv_blue_verif)]
+    pub fn verif_levels(&self) -> Vec<Vec<SstMetadata>> {
+        let version = self.take_snapshot();
+        version
+            .version
+            .levels
+            .iter()
+            .map(|l| l.ssts.iter().map(|s| (**s).clone()).collect())
+            .collect()
+    }
+
+    #[cfg(rescrv_blue_verif)]
+    pub fn verif_should_stall(&self) -> bool {
+        self.take_snapshot().version.should_stall_ingest()
+    }
+
+    #[cfg(rescrv_blue_verif)]
+    pub fn verif_ongoing_compactions(&self) -> usize {
+        self.take_snapshot().version.ongoing.lock().unwrap().len()
+    }
+
+    #[cfg(rescrv_blue_verif)]
+    pub fn verif_wake_all(&self) {
+        let _mutex = self.compaction.lock().unwrap();
+        self.stall.notify_all();
+        self.compact.notify_all();
     }
 
     pub fn get(&self, key: &[u8]) -> Result<Option<Vec<u8>>, SError> {
